@@ -106,6 +106,57 @@ class BranchFlipper(ast.NodeTransformer):
         return node
 
 
+class TryWrapper(ast.NodeTransformer):
+    """Wraps the body of every for-loop and every function (after the docstring) in
+    `try: ... except Exception: raise` - lexical nesting and handler structure change, behaviour does not."""
+
+    def _wrap(self, body: list[ast.stmt]) -> list[ast.stmt]:
+        if not body or all(isinstance(s, (ast.Pass, ast.Expr)) and (isinstance(s, ast.Pass) or isinstance(getattr(s, "value", None), ast.Constant)) for s in body):
+            return body
+        t = ast.Try(body=body, handlers=[ast.ExceptHandler(type=ast.Name(id="Exception", ctx=ast.Load()), name=None, body=[ast.Raise(exc=None, cause=None)])], orelse=[], finalbody=[])
+        return [t]
+
+    def visit_FunctionDef(self, node):
+        self.generic_visit(node)
+        if any(isinstance(d, ast.Name) and d.id in ("overload", "abstractmethod") for d in node.decorator_list):
+            return node
+        i = 1 if node.body and isinstance(node.body[0], ast.Expr) and isinstance(node.body[0].value, ast.Constant) and isinstance(node.body[0].value.value, str) else 0
+        # global / nonlocal declarations must stay first
+        while i < len(node.body) and isinstance(node.body[i], (ast.Global, ast.Nonlocal)):
+            i += 1
+        node.body = node.body[:i] + self._wrap(node.body[i:]) if node.body[i:] else node.body
+        return node
+
+    visit_AsyncFunctionDef = visit_FunctionDef
+
+    def visit_For(self, node):
+        self.generic_visit(node)
+        node.body = self._wrap(node.body)
+        return node
+
+
+class ReturnVar(ast.NodeTransformer):
+    """`return <expr>` -> `_ret = <expr>; return _ret` for every non-trivial return expression."""
+
+    def _fix(self, body: list[ast.stmt]) -> list[ast.stmt]:
+        out: list[ast.stmt] = []
+        for s in body:
+            if isinstance(s, ast.Return) and s.value is not None and not isinstance(s.value, (ast.Name, ast.Constant)) and not any(isinstance(x, (ast.Yield, ast.YieldFrom, ast.Await)) for x in ast.walk(s.value)):
+                out.append(ast.Assign(targets=[ast.Name(id="_ret", ctx=ast.Store())], value=s.value, lineno=s.lineno))
+                out.append(ast.Return(value=ast.Name(id="_ret", ctx=ast.Load())))
+            else:
+                out.append(s)
+        return out
+
+    def generic_visit(self, node):
+        super().generic_visit(node)
+        for fld in ("body", "orelse", "finalbody"):
+            v = getattr(node, fld, None)
+            if isinstance(v, list) and v and isinstance(v[0], ast.stmt):
+                setattr(node, fld, self._fix(v))
+        return node
+
+
 def rewrite_tree(root: Path, rename: bool, mode: str = "") -> int:
     n = 0
     for f in list(root.rglob("*.py")):
@@ -121,6 +172,12 @@ def rewrite_tree(root: Path, rename: bool, mode: str = "") -> int:
                 if not ((isinstance(st, ast.Expr) and isinstance(st.value, ast.Constant)) or (isinstance(st, ast.ImportFrom) and st.module == "__future__")):
                     break
             tree.body.insert(k, ast.parse("import logging").body[0])
+            ast.fix_missing_locations(tree)
+        if mode == "try":
+            tree = TryWrapper().visit(tree)
+            ast.fix_missing_locations(tree)
+        if mode == "retvar":
+            tree = ReturnVar().visit(tree)
             ast.fix_missing_locations(tree)
         if mode == "flip":
             tree = BranchFlipper().visit(tree)
